@@ -93,6 +93,16 @@ def generate(rng, ctx):
             kids.append({"kind": "field", "key": "inc3", "family": "include", "params": {}})
             incs.append(ct["key"] + ".inc3")
             schema["include_in_ctype"] = True
+    # ... and inside a configuration type that is itself a section of another configuration type
+    if rng.random() < 0.25 and all(ch["key"] != "ctouter" for ch in schema["fields"]):
+        inner = {"kind": "ctype", "key": "leaf", "name": "LeafT", "schema": {"kind": "schema", "key": "", "fields": [
+            {"kind": "field", "key": "n", "family": "int", "params": {}},
+            {"kind": "field", "key": "inc4", "family": "include", "params": {}}]}}
+        mid = {"kind": "schema", "key": "mid", "fields": [inner]} if rng.random() < 0.5 else inner
+        schema["fields"].append({"kind": "ctype", "key": "ctouter", "name": "OuterT", "schema": {"kind": "schema", "key": "", "fields": [
+            {"kind": "field", "key": "m", "family": "int", "params": {}}, mid]}})
+        incs.append("ctouter.mid.leaf.inc4" if mid is not inner else "ctouter.leaf.inc4")
+        schema["include_in_ctype"] = True
     # a chain of sections that is never declared by itself: its first leaf is declared as schema["dz.dy.dd"] = field, which
     # creates both sections on the way (typed dict and include leaves report errors by the schema's static path)
     if rng.random() < 0.35 and all(ch["key"] != "dz" for ch in schema["fields"]):
@@ -205,7 +215,7 @@ def generate(rng, ctx):
         probes.append({"pos": tgt["pos"], "path": tgt["path"], "bad": bad, "routes": rng.sample(routes, rng.choice([2, 3, 5])),
                        "index": rng.choice([0, 0, 1, 2]), "nitems": rng.choice([1, 2, 3]), "equal_items": rng.random() < 0.5,
                        "key": rng.choice(["k1", "kk", "a.b", "K"]), "fmt": rng.choice(FMT_FOR_LOADS),
-                       "prior_load": rng.random() < 0.4, "reorder": rng.choice([None, None, "insert0", "pop0", "reverse", "swap", "swap", "rotate", "reassign-plus", "reassign-copy"]),
+                       "prior_load": rng.random() < 0.4, "reorder": rng.choice([None, None, "insert0", "pop0", "reverse", "swap", "swap", "rotate", "reassign-plus", "reassign-copy", "reassign-front"]),
                        "object_items": rng.random() < 0.5, "moved": rng.random() < 0.5, "dupkey": rng.random() < 0.3,
                        "move_how": rng.choice(["append", "setitem", "assign", "insert0"])})
     for path in incs:
@@ -710,7 +720,15 @@ def attempt(cc, ctx, drv, pr, route, rng):
         try:
             lst = spec.get_path(cfg, list_path)
             n0 = len(lst)
-            if pr["reorder"] in ("reassign-plus", "reassign-copy") and "." not in list_path and "[" not in list_path:
+            if pr["reorder"] == "reassign-front" and "." not in list_path and "[" not in list_path:
+                # a copy of the stored list gets a new FIRST item and is then assigned back
+                derived = lst.copy()
+                derived.insert(0, copy.deepcopy(items[0]))
+                setattr(cfg, list_path, derived)
+                lst = spec.get_path(cfg, list_path)
+                new_idx = idx + 1
+                drv.res.count("lists_reassigned_from_themselves_then_reordered")
+            elif pr["reorder"] in ("reassign-plus", "reassign-copy") and "." not in list_path and "[" not in list_path:
                 # the field is given a NEW list made from the one it holds (lst + [...], lst.copy()); that list is then
                 # re-ordered in place
                 setattr(cfg, list_path, (lst + [copy.deepcopy(items[0])]) if pr["reorder"] == "reassign-plus" else lst.copy())
